@@ -1209,3 +1209,45 @@ func init() {
 		},
 	})
 }
+
+
+// c03LongStream: n values; every Read hands out exactly the rest of one value and the first byte behind it, so that by the next
+// Read the value is complete and followed by a byte. The monitor in Read flags a Read that is issued while the output of a
+// value that was complete by then is not written - for every one of the n values, not only the first few.
+func c03LongStream(c *fw.Ctx, n int) *fw.Violation {
+	var sb strings.Builder
+	for k := 1; k <= n; k++ {
+		switch k % 4 {
+		case 0:
+			fmt.Fprintf(&sb, "[%d]\n", k)
+		case 1:
+			fmt.Fprintf(&sb, "%d ", k)
+		case 2:
+			fmt.Fprintf(&sb, "{\"v\": %d} ", k)
+		default:
+			fmt.Fprintf(&sb, "\"s%d\"\n", k)
+		}
+	}
+	data := sb.String()
+	cs := &c03Case{Data: data, Prog: 0, Monitor: true, AllChunk: true}
+	ex := c03Model(0, data)
+	if ex.status != StreamClean || ex.nvals != n {
+		panic("c03LongStream: generated stream is not clean")
+	}
+	// schedule: with all chunkings allowed, choice j hands out (remaining - j) bytes
+	var sched []int
+	pos := 0
+	for _, b := range ex.bounds {
+		want := b + 1 - pos
+		if pos+want > len(data) {
+			want = len(data) - pos
+		}
+		if want <= 0 {
+			continue
+		}
+		sched = append(sched, len(data)-pos-want)
+		pos += want
+	}
+	_, v := c03Run(c, cs, &ex, sched)
+	return v
+}
